@@ -51,6 +51,11 @@ CHECKS.update({
          "Real Cucumber::custom(..).init_tracing().run() under the gate executor, every poll inside dispatcher::with_default: 1-3 concurrent scenarios, steps and both hooks emitting 0-2 uniquely numbered log events before and after their gate, retry 0/1 with a failure at step / before hook / after hook, gates on steps or on everything, limits 1/2; full DFS or deviation bound 2 (quick) / 4 (thorough). Oracle: every emitted id appears exactly once as a Log of the emitting scenario attempt, between the Started and the result of its step/hook, before run-Finished. Quiescence = 16 polls without observable change (forward_logs self-wakes).", "§6 C20"),
 })
 
+CHECKS.update({
+ "C14": ("exploration", "hist", "bounded-exhaustive enumeration of normalized streams x naming alphabets x reporter options, reports parsed back by independent parsers",
+         "Streams of the C12 grammar (any outcomes, hooks, retries, background failures, parser errors; FailOnSkipped-rewritten variant) x {with path, path-less} x {plain names, names with quotes / markup / non-ASCII, same-named scenarios at different lines} x reporter options (libtest show_output / report_time, verbosity 0/1) through Normalize<Basic>, Normalize<Libtest>, Normalize<Json>, Normalize<JUnit> into memory sinks. tools/parse_reports.py (python json, xml.etree, a line parser also applied to JUnit's embedded terminal text) parses every report back; multiset of facts per feature / rule / scenario / attempt == facts of the stream; documents well-formed; libtest started/result pairing, totals and verdict; JSON one object per feature / element; JUnit one test case per finished attempt with the right suite, name and status.", "§6 C14"),
+})
+
 NOT_YET = {
 }
 
